@@ -26,6 +26,8 @@ func main() {
 		c37(*keys, sz, flag.Args()[1:])
 	case "c34":
 		c34(*seed, *n, *ops)
+	case "c28":
+		c28(*seed, *n, *ops)
 	default:
 		fmt.Fprintln(os.Stderr, "usage: sysharness [-seed N] [-n N] c37|c34|c28|c36 ...")
 		os.Exit(2)
